@@ -181,72 +181,167 @@ func scale4(r *vkit.Report, quickRace, quickNoRace, thoroughRace, thoroughNoRace
 // ---------------------------------------------------------------------------------------------
 // Future: {Wait | WaitContext, Wait | WaitContext, Fill} on one fresh Future per round.
 
-const fsweepBatch = 10000
+// A sweep plan entry: which parties, which value type, how many rounds per batch.
+type fsweepPlan struct {
+	variant string // parties
+	vtype   string // int64 | 4KiB | 64KiB
+	rounds  int
+}
 
-var fsweepVariants = []string{"Wait+Wait+Fill", "WaitContext(live)+Wait+Fill", "Wait+WaitContext(expiring)+Fill"}
+var fsweepPlans = []fsweepPlan{
+	{"Wait+Wait+Fill", "int64", 10000},
+	{"WaitContext(live)+Wait+Fill", "int64", 10000},
+	{"Wait+WaitContext(expiring)+Fill", "int64", 10000},
+	{"WaitContext(cancelled around Fill)+cancel+Fill", "64KiB", 1500},
+	{"WaitContext(cancelled around Fill)+cancel+Fill", "int64", 10000},
+	{"WaitContext(cancelled around Fill)+cancel+Fill", "4KiB", 4000},
+	{"Wait+Wait+Fill", "64KiB", 1500},
+	{"Wait+WaitContext(expiring)+Fill", "4KiB", 4000},
+}
 
-type fsweepRes struct {
-	v      int64
+type big4k [512]uint64
+type big64k [8192]uint64
+
+type fsweepRes[T any] struct {
+	v      T
 	err    error
 	ctxErr error
 }
 
+type fsweepRound[T any] struct {
+	f      *xsync.Future[T]
+	ctx    context.Context
+	cancel context.CancelFunc
+}
+
 func futureSweep(r *vkit.Report) {
-	n := scale4(r, 10, 30, 30, 90) // batches of 10000 rounds
+	n := scale4(r, 14, 40, 42, 96) // batches
 	if runtime.GOMAXPROCS(0) < 4 {
 		n = (n + 9) / 10
+	}
+	// order of the plans: under the race detector the large-value rounds cost milliseconds, so
+	// the one-word plans take most of the batches there
+	order := []int{0, 1, 2, 3, 4, 5, 6, 7}
+	if vkit.RaceEnabled {
+		order = []int{0, 1, 2, 3, 0, 1, 2, 5, 0, 1, 2, 6, 4, 7}
 	}
 	var abort bool
 	r.Cases("f-sweep", n, 1, func(c *vkit.Case) {
 		if abort {
 			return
 		}
-		if !futureSweepCase(c, fsweepVariants[c.Index%len(fsweepVariants)]) {
+		p := fsweepPlans[order[c.Index%len(order)]]
+		if vkit.RaceEnabled && p.vtype != "int64" {
+			p.rounds /= 3
+		}
+		ok := true
+		switch p.vtype {
+		case "int64":
+			ok = futureSweepCase(c, p, func(m uint64) int64 { return int64(m) }, func(v *int64, m uint64) string {
+				if *v != int64(m) {
+					return fmt.Sprintf("%d", *v)
+				}
+				return ""
+			})
+		case "4KiB":
+			ok = futureSweepCase(c, p, func(m uint64) (b big4k) {
+				for i := range b {
+					b[i] = m
+				}
+				return b
+			}, func(v *big4k, m uint64) string { return tornCells(v[:], m) })
+		case "64KiB":
+			ok = futureSweepCase(c, p, func(m uint64) (b big64k) {
+				for i := range b {
+					b[i] = m
+				}
+				return b
+			}, func(v *big64k, m uint64) string { return tornCells(v[:], m) })
+		}
+		if !ok {
 			abort = true
 		}
 	})
 	if abort {
 		return
 	}
-	r.Floor("Future three-party sweep rounds", r.Table("future-sweep", "rounds"), int64(n*fsweepBatch))
+	r.Floor("Future three-party sweep batches", r.Table("future-sweep", "batches"), int64(n))
 	if runtime.GOMAXPROCS(0) >= 4 {
 		r.Floor("Future sweep: waiters that were inside their call when Fill was called and when it returned", r.Table("future-sweep", "waiter calls overlapping Fill"), 1000)
+		r.Floor("Future sweep: contexts cancelled while Fill was running", r.Table("future-sweep", "cancel calls overlapping Fill"), 20)
 	}
 }
 
-func futureSweepCase(c *vkit.Case, variant string) bool {
+// tornCells describes a value that is not "every cell equal to the marker" ("" if it is).
+func tornCells(v []uint64, m uint64) string {
+	bad, zero, first := 0, 0, -1
+	for i, x := range v {
+		if x != m {
+			bad++
+			if x == 0 {
+				zero++
+			}
+			if first < 0 {
+				first = i
+			}
+		}
+	}
+	if bad == 0 {
+		return ""
+	}
+	return fmt.Sprintf("%d of %d cells differ from the marker %#x (%d of them zero; first at cell %d)", bad, len(v), m, zero, first)
+}
+
+// futureSweepCase runs one batch. mk makes the value for a marker; bad describes a value that is
+// not exactly that value.
+func futureSweepCase[T any](c *vkit.Case, plan fsweepPlan, mk func(m uint64) T, bad func(v *T, m uint64) string) bool {
 	r := c.R
 	rnd := c.Rand
+	variant := plan.variant + " / " + plan.vtype
 	s := newSweep3(rnd, 10)
 	deadline := time.Duration(rnd.Range(20, 300)) * time.Microsecond
 	live, cancelLive := context.WithCancel(context.Background())
 	defer cancelLive()
-	var fp atomic.Pointer[xsync.Future[int64]]
-	var res [2]fsweepRes
-	var wCall, wRet [2]int64 // logical ticks, for the overlap count only
+	var rp atomic.Pointer[fsweepRound[T]]
+	var res [2]fsweepRes[T]
+	var wCall, wRet [2]int64 // logical ticks, for the overlap counts only
 	var clock vkit.Clock
 	var fc, fr atomic.Int64
 	kinds := [2]string{"Wait", "Wait"}
-	switch variant {
+	switch plan.variant {
 	case "WaitContext(live)+Wait+Fill":
 		kinds[0] = "WaitContext(live)"
 	case "Wait+WaitContext(expiring)+Fill":
 		kinds[1] = "WaitContext(expiring)"
+	case "WaitContext(cancelled around Fill)+cancel+Fill":
+		kinds[0], kinds[1] = "WaitContext(cancelled around Fill)", "cancel"
 	}
-	base := int64(c.Index+1) * 10 * fsweepBatch
+	nWaiters := 2
+	must := []int{2}
+	if kinds[1] == "cancel" {
+		nWaiters = 1
+		must = []int{1, 2}
+	}
+	base := uint64(c.Index+1)<<32 | 0x5a5a000000000000
+	var values atomic.Pointer[T] // the value the Fill party fills with (made before the release)
 	waiter := func(slot int) func(rd int64) {
 		return func(rd int64) {
-			f := fp.Load()
-			res[slot] = fsweepRes{}
+			rs := rp.Load()
+			res[slot].err, res[slot].ctxErr = nil, nil
 			wCall[slot] = clock.Tick()
 			switch kinds[slot] {
 			case "Wait":
-				res[slot].v = f.Wait()
+				res[slot].v = rs.f.Wait()
 			case "WaitContext(live)":
-				res[slot].v, res[slot].err = f.WaitContext(live)
+				res[slot].v, res[slot].err = rs.f.WaitContext(live)
+			case "WaitContext(cancelled around Fill)":
+				res[slot].v, res[slot].err = rs.f.WaitContext(rs.ctx)
+				res[slot].ctxErr = rs.ctx.Err()
+			case "cancel":
+				rs.cancel()
 			default:
 				ctx, cancel := context.WithTimeout(context.Background(), deadline)
-				res[slot].v, res[slot].err = f.WaitContext(ctx)
+				res[slot].v, res[slot].err = rs.f.WaitContext(ctx)
 				res[slot].ctxErr = ctx.Err()
 				cancel()
 			}
@@ -254,19 +349,27 @@ func futureSweepCase(c *vkit.Case, variant string) bool {
 		}
 	}
 	s.start([3]func(rd int64){waiter(0), waiter(1), func(rd int64) {
-		f := fp.Load()
+		rs := rp.Load()
+		x := values.Load()
 		fc.Store(clock.Tick())
-		f.Fill(base + rd)
+		rs.f.Fill(*x)
 		fr.Store(clock.Tick())
 	}})
 	inFuture := func(g vkit.G) bool { return g.In("xsync.(*Future") }
-	overlaps, gaveUp := 0, 0
-	for rd := int64(1); rd <= fsweepBatch; rd++ {
-		fp.Store(xsync.NewFuture[int64]())
-		verdict, dump := s.runRound(rd, []int{2}, inFuture)
+	overlaps, cancelOverlaps, gaveUp := 0, 0, 0
+	for rd := int64(1); rd <= int64(plan.rounds); rd++ {
+		marker := base + uint64(rd)
+		x := mk(marker)
+		values.Store(&x)
+		rs := &fsweepRound[T]{f: xsync.NewFuture[T]()}
+		if kinds[1] == "cancel" {
+			rs.ctx, rs.cancel = context.WithCancel(context.Background())
+		}
+		rp.Store(rs)
+		verdict, dump := s.runRound(rd, must, inFuture)
 		witness := func(extra map[string]any) map[string]any {
 			m := map[string]any{"variant": variant, "round": rd, "spin_before_call": []int64{s.offset(0, rd), s.offset(1, rd), s.offset(2, rd)},
-				"filled_with": base + rd, "expiring_deadline_us": deadline.Microseconds()}
+				"filled_with_marker": fmt.Sprintf("%#x", marker), "expiring_deadline_us": deadline.Microseconds()}
 			for k, v := range extra {
 				m[k] = v
 			}
@@ -280,14 +383,17 @@ func futureSweepCase(c *vkit.Case, variant string) bool {
 					who += fmt.Sprintf(" %s(party %d)", kinds[i], i)
 				}
 			}
-			c.Violation("future-waiter-stuck", fmt.Sprintf("Future three-party sweep %s, round %d (spins %d/%d/%d): Fill(%d) has returned but%s never returns: parked forever",
-				variant, rd, s.offset(0, rd), s.offset(1, rd), s.offset(2, rd), base+rd, who), witness(map[string]any{"goroutines": dump}))
+			c.Violation("future-waiter-stuck", fmt.Sprintf("Future three-party sweep %s, round %d (spins %d/%d/%d): Fill has returned but%s never returns: parked forever",
+				variant, rd, s.offset(0, rd), s.offset(1, rd), s.offset(2, rd), who), witness(map[string]any{"goroutines": dump}))
 			s.finish(false)
 			return false
 		case vkit.AwaitInconclusive:
 			r.Inconclusive(fmt.Sprintf("case %s: Future sweep round %d did not complete, goroutines still runnable at the hard limit", c.ID(), rd))
 			s.finish(false)
 			return false
+		}
+		if rs.cancel != nil {
+			rs.cancel()
 		}
 		for id := range s.pan {
 			if p := s.pan[id].Load(); p != nil {
@@ -296,19 +402,19 @@ func futureSweepCase(c *vkit.Case, variant string) bool {
 				return true
 			}
 		}
-		for i := 0; i < 2; i++ {
+		for i := 0; i < nWaiters; i++ {
 			r.Eval(1)
-			switch {
-			case res[i].err != nil:
-				if kinds[i] != "WaitContext(expiring)" || res[i].err != res[i].ctxErr {
+			if res[i].err != nil {
+				if (kinds[i] != "WaitContext(expiring)" && kinds[i] != "WaitContext(cancelled around Fill)") || res[i].err != res[i].ctxErr {
 					c.Violation("spurious-error", fmt.Sprintf("Future three-party sweep %s, round %d: %s returned error %v", variant, rd, kinds[i], res[i].err), witness(nil))
 					s.finish(true)
 					return true
 				}
 				gaveUp++
-			case res[i].v != base+rd:
-				c.Violation("wrong-value", fmt.Sprintf("Future three-party sweep %s, round %d (spins %d/%d/%d): %s returned %d, the Future was filled with %d",
-					variant, rd, s.offset(0, rd), s.offset(1, rd), s.offset(2, rd), kinds[i], res[i].v, base+rd), witness(nil))
+			} else if what := bad(&res[i].v, marker); what != "" {
+				// a nil error must come with exactly the filled value
+				c.Violation("wrong-value", fmt.Sprintf("Future three-party sweep %s, round %d (spins %d/%d/%d): %s returned a nil error with a value that is not the one the Future was filled with: %s",
+					variant, rd, s.offset(0, rd), s.offset(1, rd), s.offset(2, rd), kinds[i], what), witness(nil))
 				s.finish(true)
 				return true
 			}
@@ -316,12 +422,17 @@ func futureSweepCase(c *vkit.Case, variant string) bool {
 				overlaps++
 			}
 		}
+		if kinds[1] == "cancel" && wCall[1] < fr.Load() && wRet[1] > fc.Load() {
+			cancelOverlaps++
+		}
 	}
 	s.finish(true)
-	r.Count("future-sweep", "rounds", fsweepBatch)
-	r.Count("future-sweep", "rounds "+variant, fsweepBatch)
+	r.Count("future-sweep", "batches", 1)
+	r.Count("future-sweep", "rounds", plan.rounds)
+	r.Count("future-sweep", "rounds "+variant, plan.rounds)
 	r.Count("future-sweep", "waiter calls overlapping Fill", overlaps)
-	r.Count("future-sweep", "expiring WaitContext gave up with ctx.Err()", gaveUp)
+	r.Count("future-sweep", "cancel calls overlapping Fill", cancelOverlaps)
+	r.Count("future-sweep", "WaitContext gave up with ctx.Err()", gaveUp)
 	r.Count("future-sweep", "rounds that left the fast path (slow machine), completed normally", s.slowPaths)
 	r.Distinct(fmt.Sprintf("fs:%s:%v:%v", variant, s.mod, s.scale))
 	return true
